@@ -121,4 +121,40 @@ CLAIMED = {
                      "recorded traces validated against the spec with TLC",
         "design_ref": "DESIGN.md section 4 (C11)",
     },
+    "C03": {
+        "text": "DatasetOps.tla models a dataset as per-axis bags of base-array positions (pad = empty bag, "
+                "bin = concatenated bags, index = selected bags in NumPy's result-axis order, integer "
+                "indices = pins) with exact rational origin/sampling and calibration provenance. TLC "
+                "checks Coherent/ClassMatchesDim, CalWithData, SourceUntouched, OthersUntouched and "
+                "RaisesUnchanged exhaustively to 2-3 actions over a curated alphabet (~270 operation "
+                "instances per state: copy, setters incl. wrong length, pad, crop, bin, resample, index "
+                "with ints/negative ints/slices incl. negative steps/lists/Ellipsis/short tuples, in "
+                "place or not) from 1-D..5-D initial datasets of all five classes, and rejects the "
+                "pinned-tree variant (calibration kept in natural order). Behaviours (exhaustive to 1-2 "
+                "actions, simulated to 8-12) are replayed on real datasets with 7 dtypes: class, shape, "
+                "origin, sampling, units and the data rebuilt from the bags are compared after every "
+                "action, every other live object is re-hashed, in-place and copying variants are "
+                "compared.",
+        "note": "Trusted: TLC, the replayer's bag-to-array reconstruction (einsum with count matrices), "
+                "NumPy indexing itself. Resample re-bases the data model (values decided by C06).",
+        "technique": "TLA+ model checked by TLC; TLC behaviours with post-states replayed into the "
+                     "implementation (S->C)",
+        "design_ref": "DESIGN.md section 4 (C03)",
+    },
+    "C06": {
+        "text": "Same DatasetOps.tla model in c06 mode: TLC checks BinConserves (every covered sample in "
+                "exactly one block, trailing remainder dropped, block-centre preservation in exact "
+                "rationals), PadCropIdentity and ResampleMeta (centre and extent preserved) over every "
+                "axis subset x factors 1..4 x sum/mean, pad-to-shape+crop, and resampling to lengths "
+                "{1,2,3,4,5,7,8} from 8 shapes (1-D..4-D, odd/even). Every single-operation behaviour "
+                "is replayed: bin/pad/crop data compared with the exact bag reconstruction (integer "
+                "inputs, 7 dtypes), and the Fourier-resample laws (identity, linearity, mean, in-place = "
+                "copy, up-then-down = id without Nyquist content, calibration restored) are checked on "
+                "real arrays for the model-enumerated (shape, out_shape, axes).",
+        "note": "Trusted: TLC, NumPy FFT accuracy (tolerance 1e-9*|x|max*N), the replayer. Resample data "
+                "are checked through laws, not through an exact model.",
+        "technique": "TLA+ model checked by TLC (exact rational/bag laws); exported operation instances "
+                     "replayed into the implementation",
+        "design_ref": "DESIGN.md section 4 (C06)",
+    },
 }
